@@ -484,7 +484,11 @@ func famRunseq(r *Rand) *seqScenario {
 			b.cmd(seqCmd{Op: "run", Inst: 1, Max: 1 + r.Intn(3)})
 		}
 	}
-	if r.Chance(60) {
+	if r.Chance(30) {
+		// the read-only date passes while the loop runs (or, V <= 0, had passed before the first tick)
+		b.cmd(seqCmd{Op: "sunset", Inst: 0, V: int64([]int{-1000, 0, 15, 40}[r.Intn(4)])})
+		b.cmd(seqCmd{Op: "waitstop", Inst: 0})
+	} else if r.Chance(60) {
 		b.cmd(seqCmd{Op: "stopseq", Inst: 0})
 	} else {
 		b.cmd(seqCmd{Op: "run", Inst: 0, Max: 8, Faults: map[string]string{fmt.Sprint(r.Intn(3)): "errN"}})
